@@ -735,7 +735,7 @@ func genBerConcurrent(o genOpts, r *rng, w *bufio.Writer) {
 			case 0:
 				b = []byte{0x30, 0x00}
 			default:
-				b, _ = asn.BerMarshalWithParams(v.Addr().Interface(), p)
+				b, _ = genMarshal(v.Addr().Interface(), p)
 				if r.chance(35) {
 					b = mutateOctets(r, b)
 				}
